@@ -22,6 +22,9 @@ sys.path.insert(0, os.path.dirname(os.path.abspath(__file__)))
 import props as P  # noqa: E402
 
 
+REPLAY_CAP = 60000   # thorough tier: behaviours replayed per (engine, build)
+
+
 class ToolError(Exception):
     pass
 
@@ -341,11 +344,21 @@ def conformance_stage(kind, variant, params):
             raise ToolError('engine %s produced no behaviours to replay' % params.get('engine'))
         if kind == 'replay':
             # shard the behaviours over several harness processes
-            k = max(1, min(4, params.get('n', 1) // 500))
+            # thorough tier: an engine may emit millions of behaviours; at most `cap` of them (every stride-th one, rotated by
+            # the seed) are replayed per build, the number is recorded in the evidence
+            n_all = params.get('n', 1)
+            cap = params.get('cap') or n_all
+            stride = max(1, -(-n_all // cap))
+            n_sel = len(range((params.get('seed', 0)) % stride, n_all, stride))
+            k = max(1, min(4, n_sel // 500))
             outs = [open(os.path.join(d, 'beh%d.ndjson' % i), 'w') for i in range(k)]
             with open(params['file']) as fh:
+                j = 0
                 for i, line in enumerate(fh):
-                    outs[i % k].write(line)
+                    if (i - params.get('seed', 0)) % stride:
+                        continue
+                    outs[j % k].write(line)
+                    j += 1
             for o in outs:
                 o.close()
             def one(i):
@@ -362,6 +375,8 @@ def conformance_stage(kind, variant, params):
                     rep[key] += r.get(key, 0)
                 rep['drift_samples'] += r.get('drift_samples', [])[:3]
                 rep['build'] = r.get('build')
+            rep['emitted_by_engine'] = n_all
+            rep['replay_stride'] = stride
             if not rep.get('crash') and (rep['skipped'] or not rep['behaviours']):
                 raise ToolError('replay of engine %s on build %s skipped %d behaviours (feature mismatch between model and build)' % (params.get('engine'), variant, rep['skipped']))
             if not rep.get('crash'):
@@ -802,6 +817,8 @@ def run_check(pid, tier, seed):
         if s['kind'] == 'replay':
             er = next(e for e in engines if e['engine'] == s['engine'])
             params = {'file': er['behaviours_file'], 'engine': s['engine'], 'n': er['behaviours'], 'sample': 1 if P.ENGINES[s['engine']].get('simulate') else (20 if tier == 'quick' else 2), 'seed': seed}
+            if tier == 'thorough' and er['behaviours'] > REPLAY_CAP:
+                params['cap'] = REPLAY_CAP
         else:
             params = s['params']
         jobs.append((s['kind'], s['variant'], params))
